@@ -212,6 +212,14 @@ def _worker(args):
                 h = ps.argon2_raw(typ, pw8, d["salt"], d["t"], 8 * p_, p_, 32)
                 muts[ps.argon2_encode(typ, d["t"], 8 * p_, p_, d["salt"], h).encode()] = "lanes=%d(recomputed)" % p_
             muts[s.replace(b"m=%d" % m_req, b"m=0%d" % m_req)] = "m=0N"
+            # numeric aliases: each decimal field replaced by value + k*2^w for the widths a decoder could wrap at (32, 63, 64, 128 bits) and by padded forms
+            for fld, val in ((b"m=", m_req), (b"t=", t_req), (b"p=", 1), (b"v=", 19)):
+                for k in (1 << 32, 1 << 63, 1 << 64, 3 << 64, (1 << 64) * 10, 1 << 128):      # (smaller offsets are valid, different, expensive parameters: not aliases)
+                    muts[s.replace(fld + b"%d" % val, fld + b"%d" % (val + k), 1)] = "%s%d+%d*2^%d" % (fld.decode(), val, k >> (k.bit_length() - 1) if k.bit_length() < 66 else k // (1 << 64), min(k.bit_length() - 1, 64))
+                muts[s.replace(fld + b"%d" % val, fld + b"+%d" % val, 1)] = "%s+N" % fld.decode()
+                muts[s.replace(fld + b"%d" % val, fld + b"00%d" % val, 1)] = "%s00N" % fld.decode()
+                muts[s.replace(fld + b"%d" % val, fld + b"%d " % val, 1)] = "%sN-space" % fld.decode()
+                muts[s.replace(fld + b"%d" % val, fld + b"0x%x" % val, 1)] = "%shex" % fld.decode()
             muts[s.replace(b"v=19", b"v=16")] = "v=16"
             muts[s.replace(b"$v=19", b"")] = "no-version"
             muts[s.replace(b"m=%d,t=%d" % (m_req, t_req), b"t=%d,m=%d" % (t_req, m_req))] = "swapped"
@@ -243,8 +251,8 @@ def _worker(args):
                     # the generic crypto_pwhash_str_* entry points dispatch on the prefix (argon2i / argon2id; argon2d is not offered)
                     d2 = ps.argon2_parse(cstr, expect_type=None if generic else typ, min_hash=16)
                     if d2 is not None and d2["type_name"] == "argon2d": d2 = None
+                    if d2 is not None and (d2["m"] > 4096 or d2["t"] > 64 or d2["p"] > 16): continue       # too expensive to evaluate (for the library too): not judged
                     want_v = d2 is not None and ps.argon2_str_verify(cstr, pw8, expect_type=None if generic else typ, min_hash=16)
-                    if d2 is not None and (d2["m"] > 4096 or d2["t"] > 64): continue
                     want_r = -1 if d2 is None else (0 if (d2["t"] == t_req and d2["m"] == m_req) else 1)
             except ps.ScryptTooBig:
                 continue
